@@ -656,14 +656,19 @@ pub fn check_c20(case: &TailCase, w: usize) -> CheckResult {
         s.write_all(format!("{}\n", marker).as_bytes())?;
         Ok(())
     })();
-    if let Err(e) = sent {
-        tail.kill_group();
-        return inconclusive(format!("sentinel client failed: {}", e));
+    // the listener is gone (it no longer accepts a connection although the harness never
+    // stopped it): what it printed until then is all there will be
+    let listener_gone = sent.is_err() && (tail.try_done() || !bb::is_listening(port));
+    if let Err(e) = &sent {
+        if !listener_gone {
+            tail.kill_group();
+            return inconclusive(format!("sentinel client failed: {}", e));
+        }
     }
     let t0 = Instant::now();
     loop {
         let so = tail.stdout_so_far();
-        if String::from_utf8_lossy(&so).contains(marker) {
+        if listener_gone || String::from_utf8_lossy(&so).contains(marker) {
             break;
         }
         if t0.elapsed() > Duration::from_secs(30) {
